@@ -7,7 +7,7 @@
 //   work <id> <us>                                the recorder of timer/push <id> sleeps that long inside its evaluation (lagging graph)
 //   thread <name>: op; op; ...                    ops: try <push> <v> | block <push> <v> | sleep <us> | yield | stop
 //   faults spurious=<p> stall=<p> stall_us=<n> late=<p> late_us=<n> starve=<thread index>:<from>:<steps> jitter=<n>
-//   seed <n>     decisions <comma list>           (replay: explicit thread choice per scheduler step)
+//   seed <n>     tape <comma list> | emit_tape    (replay the listed scheduler/fault decisions instead of the seed's; log them)
 #include "common.h"
 #include "simthreads.h"
 #include "vocab.h"
@@ -265,12 +265,13 @@ namespace hv
                     cfg.starve_steps  = std::stoll(p.at(2));
                 }
             }
-            else if (k == "decisions")
-            {
-                cfg.use_decisions = true;
+            else if (k == "tape")
+            {   // tape <comma list>: replay these scheduler / fault decisions instead of drawing them from the seed
+                cfg.use_tape = true;
                 if (st.tok.size() > 1)
-                    for (auto &d : split(st.tok[1], ',')) if (!d.empty()) cfg.decisions.push_back(std::stoi(d));
+                    for (auto &d : split(st.tok[1], ',')) if (!d.empty()) cfg.tape.push_back(std::stoll(d));
             }
+            else if (k == "emit_tape") cfg.record_tape = true;
             else if (k == "maxsteps") cfg.max_steps = std::stoll(st.tok.at(1));
         }
         g_start_wall = cfg.start_wall_us;
@@ -346,6 +347,12 @@ namespace hv
         const auto &s = sim::stats();
         std::string tr;
         for (int x : sim::trace()) { if (!tr.empty()) tr += ","; tr += std::to_string(x); }
+        if (cfg.record_tape || cfg.use_tape)
+        {
+            std::string tp;
+            for (long long x : sim::tape_record()) { if (!tp.empty()) tp += ","; tp += std::to_string(x); }
+            Line("tape").i("n", static_cast<long long>(sim::tape_record().size())).str("v", tp).emit();
+        }
         Line("end").str("run", "done").i("steps", s.steps).i("preemptions", s.preemptions).i("clock_jumps", s.clock_jumps).i("forced_timeouts", s.forced_timeouts)
             .i("spurious", s.spurious).i("stalls", s.stalls).i("late", s.late).i("starved", s.starved).i("mutex_blocks", s.mutex_blocks)
             .i("cond_waits", s.cond_waits).i("timed_waits", s.timed_waits).i("notifies", s.notifies).i("sim_elapsed_us", sim::now_us() - g_start_wall)
